@@ -176,3 +176,62 @@ class CFG:
                 visit(b["stmts"])
                 visit(b["term"])
         return out
+
+
+def field_reads_deep(f, inst, param_local, depth=0):
+    """field_reads of the parameter, including reads made by closures built in this function that capture (a copy
+    of / a reference to) the parameter."""
+    c = CFG(inst)
+    out = set(c.field_reads(param_local))
+    if depth > 2:
+        return out
+    holders = c.copies_of(param_local)
+    # references to a holder (`&_1`) are holders too, for the purpose of capture
+    changed = True
+    while changed:
+        changed = False
+        for b in c.blocks:
+            for st in b["stmts"]:
+                if st["k"] == "assign" and not st["place"]["p"] and st["place"]["l"] not in holders:
+                    rv = st["rv"]
+                    src = None
+                    if rv["k"] == "ref":
+                        src = rv["place"]
+                    elif rv["k"] == "use":
+                        src = rv["op"].get("c") or rv["op"].get("m")
+                    if src is not None and src["l"] in holders and all(p == "deref" for p in src["p"]):
+                        holders.add(st["place"]["l"])
+                        changed = True
+    by_key = {}
+    for i in f.instances:
+        by_key.setdefault(i["key"], []).append(i)
+    for b in c.blocks:
+        for st in b["stmts"]:
+            if st["k"] == "assign" and st["rv"]["k"] == "aggregate" and st["rv"].get("ak") == "closure" and not st["place"]["p"]:
+                ty = f.ty(inst["body"]["locals"][st["place"]["l"]]["ty"])
+                if ty["k"] != "closure":
+                    continue
+                for j, op in enumerate(st["rv"]["ops"]):
+                    pl = op.get("c") or op.get("m")
+                    if pl is None or pl["p"] or pl["l"] not in holders:
+                        continue
+                    for ci in by_key.get(ty["key"], []):
+                        # locals of the closure loaded from upvar j
+                        cb = ci["body"]
+                        ups = set()
+                        for bb in cb["blocks"]:
+                            for s2 in bb["stmts"]:
+                                if s2["k"] == "assign" and s2["rv"]["k"] in ("use", "ref") and not s2["place"]["p"]:
+                                    src = (s2["rv"]["op"].get("c") or s2["rv"]["op"].get("m")) if s2["rv"]["k"] == "use" else s2["rv"]["place"]
+                                    if src is not None and src["l"] == 1:
+                                        fs = [p for p in src["p"] if isinstance(p, dict) and "f" in p]
+                                        if fs and fs[0]["f"] == j:
+                                            rest = src["p"][src["p"].index(fs[0]) + 1:]
+                                            more = [p for p in rest if isinstance(p, dict) and "f" in p]
+                                            if more:
+                                                out.add(more[0]["f"])  # read directly through the upvar
+                                            else:
+                                                ups.add(s2["place"]["l"])
+                        for u in ups:
+                            out |= field_reads_deep(f, ci, u, depth + 1)
+    return out
